@@ -219,58 +219,22 @@ fn bin<T: serde::Serialize>(t: &T) -> Binary {
 }
 
 pub fn hub_samples() -> Vec<Sample> {
-    let none_cfg = h::ExecuteMsg::UpdateConfig {
-        rewards_dispatcher_contract: None,
-        validators_registry_contract: None,
-        bsei_token_contract: None,
-        stsei_token_contract: None,
-        airdrop_registry_contract: None,
-        rewards_contract: None,
-        update_reward_index_addr: None,
+    // (built from JSON: a field added to these messages must not break the harness build)
+    let cfg_msg = |field: Option<&str>| -> h::ExecuteMsg {
+        let mut m = serde_json::Map::new();
+        if let Some(f) = field {
+            m.insert(f.to_string(), serde_json::Value::String(STRANGER.into()));
+        }
+        crate::setup::mk(serde_json::json!({ "update_config": m }))
     };
+    let none_cfg = cfg_msg(None);
     let msgs: Vec<(h::ExecuteMsg, Vec<(u128, &'static str)>, bool)> = vec![
         (none_cfg, vec![], false),
-        (
-            h::ExecuteMsg::UpdateConfig {
-                rewards_dispatcher_contract: None,
-                validators_registry_contract: None,
-                bsei_token_contract: Some(STRANGER.into()),
-                stsei_token_contract: None,
-                airdrop_registry_contract: None,
-                rewards_contract: None,
-                update_reward_index_addr: None,
-            },
-            vec![],
-            true,
-        ),
-        (
-            h::ExecuteMsg::UpdateConfig {
-                rewards_dispatcher_contract: None,
-                validators_registry_contract: None,
-                bsei_token_contract: None,
-                stsei_token_contract: Some(STRANGER.into()),
-                airdrop_registry_contract: None,
-                rewards_contract: None,
-                update_reward_index_addr: None,
-            },
-            vec![],
-            true,
-        ),
-        (
-            h::ExecuteMsg::UpdateConfig {
-                rewards_dispatcher_contract: None,
-                validators_registry_contract: None,
-                bsei_token_contract: None,
-                stsei_token_contract: None,
-                airdrop_registry_contract: None,
-                rewards_contract: None,
-                update_reward_index_addr: Some(STRANGER.into()),
-            },
-            vec![],
-            false,
-        ),
-        (h::ExecuteMsg::UpdateParams { epoch_period: Some(7), unbonding_period: None, peg_recovery_fee: None, er_threshold: None, paused: Some(false), reward_denom: None }, vec![], false),
-        (h::ExecuteMsg::UpdateParams { epoch_period: None, unbonding_period: None, peg_recovery_fee: Some(dec("0.1")), er_threshold: None, paused: Some(true), reward_denom: None }, vec![], false),
+        (cfg_msg(Some("bsei_token_contract")), vec![], true),
+        (cfg_msg(Some("stsei_token_contract")), vec![], true),
+        (cfg_msg(Some("update_reward_index_addr")), vec![], false),
+        (crate::setup::mk(serde_json::json!({"update_params": {"epoch_period": 7, "paused": false}})), vec![], false),
+        (crate::setup::mk(serde_json::json!({"update_params": {"peg_recovery_fee": "0.1", "paused": true}})), vec![], false),
         (h::ExecuteMsg::SetOwner { new_owner_addr: STRANGER.into() }, vec![], false),
         (h::ExecuteMsg::AcceptOwnership {}, vec![], false),
         (h::ExecuteMsg::Bond {}, vec![(1000, USEI)], false),
@@ -355,7 +319,7 @@ pub fn other_samples() -> Vec<Sample> {
         push(DISPATCHER, v, who, bin(&m), false);
     }
     for m in [
-        rm::ExecuteMsg::AddValidator { validator: basset_sei_validators_registry::registry::Validator { address: "valx".into() } },
+        crate::setup::mk::<rm::ExecuteMsg>(serde_json::json!({"add_validator": {"validator": {"address": "valx"}}})),
         rm::ExecuteMsg::RemoveValidator { address: "val1".into() },
         rm::ExecuteMsg::RemoveValidator { address: "nosuchvalidator".into() },
         rm::ExecuteMsg::UpdateConfig { hub_contract: None },
@@ -411,16 +375,28 @@ pub fn other_samples() -> Vec<Sample> {
 // ---------------------------------------------------------------------------------------------
 // principals in a given world
 
+/// A field of the registry's `Config` answer as a human address, whether the contract reports it as the stored
+/// canonical address (base64, as shipped) or as a human address (as the other contracts do).
+pub fn registry_cfg_field(w: &World, field: &str) -> Option<String> {
+    use cosmwasm_std::Api;
+    let v: serde_json::Value = w.q(REGISTRY, &rm::QueryMsg::Config {}).ok()?;
+    let raw = v.get(field)?.as_str()?.to_string();
+    if let Ok(bin) = cosmwasm_std::Binary::from_base64(&raw) {
+        if let Ok(a) = cosmwasm_std::testing::MockApi::default().addr_humanize(&cosmwasm_std::CanonicalAddr::from(bin.to_vec())) {
+            if w.kinds.contains_key(a.as_str()) || a.as_str().chars().all(|c| c.is_ascii_alphanumeric() || c == '_') {
+                return Some(a.to_string());
+            }
+        }
+    }
+    Some(raw)
+}
+
 pub fn owner_of(w: &World, c: &str) -> Option<String> {
     match c {
         HUB => w.q::<h::ConfigResponse, _>(HUB, &h::QueryMsg::Config {}).ok().map(|x| x.owner),
         REWARD => w.q::<rw::ConfigResponse, _>(REWARD, &rw::QueryMsg::Config {}).ok().map(|x| x.owner),
         DISPATCHER => w.q::<basset::dispatcher::ConfigResponse, _>(DISPATCHER, &dm::QueryMsg::Config {}).ok().map(|x| x.owner),
-        REGISTRY => {
-            let cfg: basset_sei_validators_registry::registry::Config = w.q(REGISTRY, &rm::QueryMsg::Config {}).ok()?;
-            use cosmwasm_std::Api;
-            cosmwasm_std::testing::MockApi::default().addr_humanize(&cfg.owner).ok().map(|a| a.to_string())
-        }
+        REGISTRY => registry_cfg_field(w, "owner"),
         _ => None,
     }
 }
@@ -1101,13 +1077,12 @@ fn omitted_field_changed(before: &RefCfg, expected: &RefCfg, after: &RefCfg) -> 
 
 fn read_cfg(w: &World) -> Result<RefCfg, String> {
     use cosmwasm_std::Api;
-    let reg: basset_sei_validators_registry::registry::Config = w.q(REGISTRY, &rm::QueryMsg::Config {})?;
     Ok(RefCfg {
         hub_params: w.q(HUB, &h::QueryMsg::Parameters {})?,
         hub_cfg: w.q(HUB, &h::QueryMsg::Config {})?,
         disp: w.q(DISPATCHER, &dm::QueryMsg::Config {})?,
         reward: w.q(REWARD, &rw::QueryMsg::Config {})?,
-        registry_hub: cosmwasm_std::testing::MockApi::default().addr_humanize(&reg.hub_contract).map(|a| a.to_string()).map_err(|e| e.to_string())?,
+        registry_hub: registry_cfg_field(w, "hub_contract").ok_or_else(|| "registry Config query".to_string())?,
     })
 }
 
@@ -1202,16 +1177,16 @@ fn c20_world(seed: u64, index: u64, _thorough: bool) -> HistoryReport {
                 let mut ex = rc.clone();
                 ex.hub_params = h::Parameters {
                     epoch_period: e.unwrap_or(rc.hub_params.epoch_period),
-                    underlying_coin_denom: rc.hub_params.underlying_coin_denom.clone(),
                     unbonding_period: ub.unwrap_or(rc.hub_params.unbonding_period),
                     peg_recovery_fee: f.unwrap_or(rc.hub_params.peg_recovery_fee),
                     er_threshold: t.unwrap_or(rc.hub_params.er_threshold).min(one),
                     reward_denom: rd.clone().unwrap_or(rc.hub_params.reward_denom.clone()),
                     paused: pz,
+                    ..rc.hub_params.clone()
                 };
                 let mask = (e.is_some() as u32) | (ub.is_some() as u32) << 1 | (f.is_some() as u32) << 2 | (t.is_some() as u32) << 3 | (rd.is_some() as u32) << 4 | (pz.is_some() as u32) << 5;
                 out.count("c20.hub_params_updates");
-                (HUB, "hub.UpdateParams", bin(&h::ExecuteMsg::UpdateParams { epoch_period: e, unbonding_period: ub, peg_recovery_fee: f, er_threshold: t, paused: pz, reward_denom: rd }), mask, ex)
+                (HUB, "hub.UpdateParams", Binary::from(serde_json::json!({"update_params": {"epoch_period": e, "unbonding_period": ub, "peg_recovery_fee": f, "er_threshold": t, "paused": pz, "reward_denom": rd}}).to_string().into_bytes()), mask, ex)
             }
             3 | 4 => {
                 let d = opt(&mut r, odd_addr);
@@ -1254,7 +1229,7 @@ fn c20_world(seed: u64, index: u64, _thorough: bool) -> HistoryReport {
                 (
                     HUB,
                     "hub.UpdateConfig",
-                    bin(&h::ExecuteMsg::UpdateConfig { rewards_dispatcher_contract: d, validators_registry_contract: v, bsei_token_contract: b, stsei_token_contract: s, airdrop_registry_contract: a, rewards_contract: rwc, update_reward_index_addr: up }),
+                    Binary::from(serde_json::json!({"update_config": {"rewards_dispatcher_contract": d, "validators_registry_contract": v, "bsei_token_contract": b, "stsei_token_contract": s, "airdrop_registry_contract": a, "rewards_contract": rwc, "update_reward_index_addr": up}}).to_string().into_bytes()),
                     mask,
                     ex,
                 )
